@@ -77,6 +77,10 @@ ZUntil(z, a, b, L) ==
   ELSE LET sign == Sign3(a, b)  ca == CivilAt(z, a)  cb == CivilAt(z, b) IN
        IF sign = 0 THEN Yes(SpanZero)
        ELSE IF ca[1] = cb[1] THEN Yes(ExpTimeSpan(T, 5))
+       \* civil dates ordered against the instants (a set-back of the clock across midnight in between): no calendar
+       \* unit of the right sign fits; the elapsed time (settled while it is under a day)
+       ELSE IF (sign > 0 /\ cb[1] < ca[1]) \/ (sign < 0 /\ cb[1] > ca[1])
+       THEN (IF BLt(BAbs(T), BDayNs) THEN Yes(ExpTimeSpan(T, 5)) ELSE NoSpan)
        ELSE LET dc == DayCorr(z, a, ca, cb, b, sign) IN
             IF dc < 0 THEN NoSpan
             ELSE LET dayX == cb[1] - dc * sign
